@@ -16,6 +16,7 @@ WORKLOADS = {
     "c08": _lazy("crop", "run_c08"),
     "c09": _lazy("crop", "run_c09"),
     "c11": _lazy("race", "run_c11"),
+    "c12": _lazy("reapfail", "run_c12"),
 }
 
 REAL_VS_STUB = {
@@ -35,7 +36,7 @@ UNDER_CONSTRUCTION = "simulation target (see DESIGN.md section 3); check not bui
 NOT_APPLICABLE = {
     "C01": UNDER_CONSTRUCTION, "C05": UNDER_CONSTRUCTION, "C06": UNDER_CONSTRUCTION,
  "C10": UNDER_CONSTRUCTION,
-    "C12": UNDER_CONSTRUCTION, "C15": UNDER_CONSTRUCTION,
+    "C15": UNDER_CONSTRUCTION,
     "C16": UNDER_CONSTRUCTION,
     "C02": "pure function of (cases, combos, fn): enumeration and placeholder shape contain no schedule, "
            "clock, I/O or fault; executor reordering is C01's subject. Not a simulation target.",
@@ -134,6 +135,29 @@ PROPS = {
             "rule": "each run sows 1-3 batches fault-free, then runs growers/reaper/poller concurrently under one of "
                     "three scheduling policies; non-trivial = at least 2 context switches; distinct = distinct hash of "
                     "the (actor, op-kind, file-class) sequence restricted to operations on results/.",
+        },
+    },
+    "C12": {
+        "workload": "c12", "level": "fault_enumeration",
+        "quick": 1632, "thorough": 40800,
+        "technique": "deterministic simulation with fault enumeration: every cell of clean_up x allow_incomplete x wait "
+                     "x farmer kind x failure stage (204 applicable cells, taken in turn by run index) on seeded "
+                     "scenarios, injected failure (missing batches, torn result, wrong output description, merge "
+                     "conflict, ENOSPC on the data-file write), byte-level directory comparison, corrected retry",
+        "level_text": "The finite product of reap options, farmer kinds and failure stages is enumerated (run index "
+                      "modulo 204; quick = 8 seeded scenarios per cell, thorough = 200); wait on an incomplete crop is "
+                      "paired with a late grower under the seeded scheduler. A failing reap must leave the crop "
+                      "byte-identical and a corrected retry must deliver the reference; a successful reap must follow the "
+                      "documented clean-up rule and, for harvester/sampler crops, must not unlink anything under the "
+                      "crop before the data file is published (from the event log).",
+        "level_note": "Scenarios per cell are sampled. The save error is ENOSPC on the first kernel write into the "
+                      "data file or its temporary sibling. Data names carry their extension here (C05 covers names).",
+        "evidence": {
+            "rule": "run i executes cell (i mod 204) of the option x farmer x failure-stage product on a scenario drawn "
+                    "from its own seed (sweep, batching <= 4 batches, shuffle, result kind, storage engine, earlier data "
+                    "on disk); non-trivial = every run (each injects its cell's failure or checks the clean-up rule); "
+                    "distinct = distinct (cell, N, batches, kind, finished set).",
+            "cells_total": 204,
         },
     },
 }
